@@ -41,6 +41,7 @@ const se = `<stream:error><host-gone xmlns='urn:ietf:params:xml:ns:xmpp-streams'
 
 var items = []item{
 	{"message-own-bare-from", `<message from='me@example.net' type='chat'><body>hi</body><x xmlns='urn:x'><y>t</y></x></message>`, kElem},
+	{"message-domain-from", `<message from='example.net' type='chat'><body>d</body></message>`, kElem},
 	{"presence-other-from", `<presence from='other@example.net/r'><show>away</show></presence>`, kElem},
 	{"non-stanza", `<x xmlns='urn:other' from='me@example.net'><y><z/>t</y></x>`, kElem},
 	{"empty-message-full-from", `<message from='me@example.net/res'/>`, kElem},
@@ -136,21 +137,26 @@ func body(maxItems int) nd.Body {
 			}
 		}
 		prog := c.Choose(8, "handler-program")
+		rebound := c.Choose(2, "own-address-learned-during-negotiation") == 1
 		var names []string
 		var input strings.Builder
 		for _, it := range seq {
 			names = append(names, it.name)
 			input.WriteString(it.text)
 		}
-		c.Note("ns=%s items=%v handler-program=%d", ns, names, prog)
-		res := nd.Result{Outcome: "ok", NonTrivial: fmt.Sprintf("%v/%d", names, prog)}
+		c.Note("ns=%s items=%v handler-program=%d own-address-learned-during-negotiation=%v", ns, names, prog, rebound)
+		res := nd.Result{Outcome: "ok", NonTrivial: fmt.Sprintf("%v/%d/%v", names, prog, rebound)}
 		fail := func(sig, f string, a ...any) nd.Result {
 			res.Outcome = "violation"
-			res.Violation = &nd.Violation{Sig: sig, Msg: fmt.Sprintf("ns=%s items=%v handler-program=%d input=%q: ", ns, names, prog, input.String()) + fmt.Sprintf(f, a...)}
+			res.Violation = &nd.Violation{Sig: sig, Msg: fmt.Sprintf("ns=%s items=%v handler-program=%d own-address-learned-during-negotiation=%v input=%q: ", ns, names, prog, rebound, input.String()) + fmt.Sprintf(f, a...)}
 			return res
 		}
 
-		s, _, err := sess.New(ns, input.String())
+		mk := sess.New
+		if rebound {
+			mk = sess.NewRebound
+		}
+		s, _, err := mk(ns, input.String())
 		if err != nil {
 			panic("c08: session setup failed: " + err.Error())
 		}
